@@ -216,6 +216,8 @@ def catalogue(rng, W, tier):
             line = ""
             for _ in range(4):
                 out = s.cmd("RUN"); line = [l for l in out if l.startswith("R run")][-1]
+                if " rc=0x0 " not in line:          # the run itself reported an error
+                    res.append("run " + line.split()[2])
                 if " h=1 " in line + " ":
                     break
                 s.cmd("TICK 11")
@@ -242,6 +244,8 @@ def catalogue(rng, W, tier):
             line = ""
             for _ in range(4):
                 out = run(); line = [l for l in out if l.startswith("R run")][-1]
+                if " rc=0x0 " not in line:
+                    res.append("run " + line.split()[2])
                 if " h=1 " in line + " ":
                     break
                 s.cmd("TICK 11")
